@@ -1,0 +1,9 @@
+//go:build verif
+
+package s2
+
+// Export hooks for the verification harness of property C19 (interval /
+// rectangle algebra). Compiled only with the build tag "verif"; adds no behaviour.
+
+// VerifRectExpanded exposes the unexported Rect.expanded.
+func VerifRectExpanded(r Rect, margin LatLng) Rect { return r.expanded(margin) }
